@@ -566,3 +566,19 @@ Proof.
   - intros [H|H]; destruct r; try discriminate H; eauto 14.
   - intros [->|[->|[->|[->|[->|[->|[->|[->|[->|[(k & ->)|[(k & ->)| ->]]]]]]]]]]]; cbn; auto.
 Qed.
+
+(* readings used by the Props files *)
+Lemma reqs_ok_view_reading E s2 full tf :
+  reqs_ok (with_sess E s2) full tf =
+  negb (full && ahas k_halfauth s2) && negb (tf && negb (ahas k_twofactor s2)).
+Proof. reflexivity. Qed.
+
+Lemma settings_route_table_view E s2 :
+  settings_route (q_route (e_req E)) = true ->
+  (exists inner, route_table (with_sess E s2) = Handler (behind (with_sess E s2) true inner)) \/
+  route_table (with_sess E s2) = NotFound \/ route_table (with_sess E s2) = MethodNotAllowed.
+Proof. exact (settings_route_table (with_sess E s2)). Qed.
+
+Lemma sess_nodrop_reading e :
+  sess_nodrop e <-> match e with Put _ _ => True | Del k => k <> k_uid | DelAll _ => False end.
+Proof. reflexivity. Qed.
